@@ -82,14 +82,45 @@ def count_elements(ast, M):
         M.count("elements." + kind)
 
 
-def check_doc(R, M, case, prop):
+class Reused:
+    """One Parser + one explicitly passed TokenMatcher reused for all documents of a shard, with
+    state-perturbing documents parsed in between (rejected ones, dialect switches, documents that
+    end inside an indented doc string): what an earlier parse left behind must not show."""
+
+    def __init__(self, r):
+        from gherkin.parser import Parser
+        from gherkin.token_matcher import TokenMatcher
+        from gherkin.errors import ParserError
+        self.r = r
+        self.parser = Parser()
+        self.matcher = TokenMatcher("en")
+        self.err = ParserError
+
+    def perturb(self, M):
+        from ..perturb import POOL, NAMES
+        if self.r.random() < 0.5:
+            name = self.r.choice(NAMES)
+            self.parser.stop_at_first_error = self.r.random() < 0.3
+            try:
+                self.parser.parse(POOL[name], self.matcher)
+            except self.err:
+                pass
+            M.hist("reuse.predecessor", name)
+
+
+def check_doc(R, M, case, prop, reused=None):
     """Parse the rendered document with the real parser under the probes and compare with
     the intent.  prop in {'C03','C04'} selects what is deciding."""
     M.case(h64(R.text), nontrivial=bool(R.lines))
     if not generator_sound(R):
         M.inconc("generator produced a document whose intended reading is not the grammar's reading: %s" % short(R.text, 200))
         return None
-    o = observe.parse_observed(R.text)
+    if reused is not None:
+        reused.perturb(M)
+        o = observe.parse_observed(R.text, parser=reused.parser, matcher=reused.matcher)
+        M.count("parses_on_reused_objects")
+    else:
+        o = observe.parse_observed(R.text)
     deciding = {"C03": {"G4"}, "C04": {"G8"}}[prop]
     apply_parse_monitors(o, M, case, deciding, skip=() if prop == "C04" else ("G5",))
     cover_transitions(o, M)
